@@ -133,114 +133,64 @@ fn c09_b_get_action_once() {
     }
 }
 
-const DQ_N: usize = 1;
-
 fn any_ev() -> Event {
     let j: u16 = kani::any();
-    kani::assume(j < 5);
+    kani::assume(j < 4);
     if kani::any() { Event::Press(0, j) } else { Event::Release(0, j) }
 }
 
-/// remaining-keys list of a two-key chord, chosen among the four subsets without a
-/// symbolic-length loop (those made CBMC run out of memory)
-fn rem_of<'a>(coord: u16, part: &'a [u16; 2], which: u8, status: ActiveChordStatus, action: &'a Action<'a, Inf>) -> ActiveChord<'a, Inf> {
-    match which {
-        0 => mk_active(coord, part, &[], status, action, 0),
-        1 => mk_active(coord, part, &[part[0]], status, action, 0),
-        2 => mk_active(coord, part, &[part[1]], status, action, 0),
-        _ => mk_active(coord, part, &[part[0], part[1]], status, action, 0),
-    }
-}
-
-/// what drain_releases must do to one chord over keys part, given which keys were released
-fn expect_chord(part: &[u16; 2], which: u8, st: ActiveChordStatus, rel0: bool, rel1: bool) -> (usize, ActiveChordStatus) {
-    let has0 = which == 1 || which == 3;
-    let has1 = which == 2 || which == 3;
-    let left = (if has0 && !rel0 { 1 } else { 0 }) + (if has1 && !rel1 { 1 } else { 0 });
-    let touched = rel0 || rel1;
-    let status = if touched && left == 0 {
-        match st { Unread | UnreadReleased => UnreadReleased, Releasable | Released => Released }
-    } else {
-        st
-    };
-    (left, status)
-}
-
-/// drain_releases: a participant's release removes it from the chord's remaining keys; when none
-/// remain the chord is released; a non-participant's release changes no chord (two chords are
-/// active at once, over disjoint keys); a release is forwarded (not swallowed) iff no press is
-/// pending before it; presses stay queued, in order.
-fn drain_case(wa: u8, wb: u8) {
-    let pa: [u16; 2] = [0, 1];
-    let pb: [u16; 2] = [2, 3];
+/// drain_releases with one active chord over keys {1, 2} that still waits for key 1
+/// (OnLastRelease, key 2 already released) and one symbolic queued event, optionally behind a
+/// pending press of an unrelated key.  Larger configurations (two chords, two remaining keys,
+/// two symbolic events) were tried and do not finish in 10 min; they are NOT covered.
+fn drain_case(lead_press: bool) {
+    let p: [u16; 2] = [1, 2];
     let mut c = empty_chv2();
-    // one symbolic event, optionally preceded by a pending press of an unrelated key
-    // (two symbolic events did not finish in 10 min)
-    let lead_press: bool = kani::any();
-    let evs = if lead_press { [Event::Press(0, 4), any_ev()] } else { [any_ev(), Event::Press(0, 4)] };
-    let n: usize = if lead_press { 2 } else { 1 };
-    let _ = c.queue.push_back(Queued { event: evs[0], since: 0 });
-    if n >= 2 { let _ = c.queue.push_back(Queued { event: evs[1], since: 0 }); }
-    let (sa, sb) = (any_status(), any_status());
-    let _ = c.active_chords.push(rem_of(860, &pa, wa, sa, &ACT[0]));
-    let _ = c.active_chords.push(rem_of(861, &pb, wb, sb, &ACT[1]));
+    let e = any_ev();
+    if lead_press {
+        let _ = c.queue.push_back(Queued { event: Event::Press(0, 3), since: 0 });
+    }
+    let _ = c.queue.push_back(Queued { event: e, since: 0 });
+    let st = any_status();
+    let _ = c.active_chords.push(mk_active(860, &p, &[1], st, &ACT[0], 0));
     let mut dq = SmolQueue::new();
     c.drain_releases(&mut dq);
-
-    let released = |k: u16| -> bool { (n >= 1 && evs[0] == Event::Release(0, k)) || (n >= 2 && evs[1] == Event::Release(0, k)) };
-    let (la, ea) = expect_chord(&pa, wa, sa, released(0), released(1));
-    let (lb, eb) = expect_chord(&pb, wb, sb, released(2), released(3));
-    assert!(c.active_chords.len() == 2);
-    assert!(c.active_chords[0].remaining_keys_to_release.len() == la && c.active_chords[0].status == ea);
-    assert!(c.active_chords[1].remaining_keys_to_release.len() == lb && c.active_chords[1].status == eb);
-    assert!(c.active_chords[0].coordinate == 860 && c.active_chords[1].coordinate == 861);
-    // a key that was released is no longer waited for
-    if la == 1 {
-        let k = c.active_chords[0].remaining_keys_to_release[0];
-        assert!((k == 0 || k == 1) && !released(k));
+    let a = &c.active_chords[0];
+    if e == Event::Release(0, 1) {
+        // the last awaited participant was released: the chord is released
+        assert!(a.remaining_keys_to_release.is_empty());
+        assert!(a.status == match st { Unread | UnreadReleased => UnreadReleased, Releasable | Released => Released });
+    } else if e == Event::Release(0, 2) {
+        // a participant that is not awaited any more: still waiting for key 1
+        assert!(a.remaining_keys_to_release.len() == 1 && a.remaining_keys_to_release[0] == 1);
+        assert!(a.status == st);
+    } else {
+        // presses and releases of non-participants change no chord
+        assert!(a.remaining_keys_to_release.len() == 1 && a.remaining_keys_to_release[0] == 1);
+        assert!(a.status == st);
     }
-    if lb == 1 {
-        let k = c.active_chords[1].remaining_keys_to_release[0];
-        assert!((k == 2 || k == 3) && !released(k));
+    assert!(a.coordinate == 860 && c.active_chords.len() == 1);
+    // a release is forwarded iff no press is pending before it; presses stay queued
+    let is_rel = matches!(e, Event::Release(..));
+    if lead_press {
+        assert!(dq.is_empty() && c.queue.len() == 2);
+        assert!(c.queue[0].event == Event::Press(0, 3) && c.queue[1].event == e);
+    } else if is_rel {
+        assert!(c.queue.is_empty() && dq.len() == 1 && dq[0].event == e);
+    } else {
+        assert!(dq.is_empty() && c.queue.len() == 1 && c.queue[0].event == e);
     }
-    // queues
-    let first_is_press = n >= 1 && matches!(evs[0], Event::Press(..));
-    let mut want_q = 0;
-    let mut want_d = 0;
-    if n >= 1 {
-        if first_is_press { want_q += 1; } else { want_d += 1; }
-    }
-    if n >= 2 {
-        if matches!(evs[1], Event::Press(..)) || first_is_press { want_q += 1; } else { want_d += 1; }
-    }
-    assert!(c.queue.len() == want_q && dq.len() == want_d);
-    if n >= 1 {
-        if first_is_press { assert!(c.queue[0].event == evs[0]); } else { assert!(dq[0].event == evs[0]); }
-    }
-    if n >= 2 {
-        let e1_kept = matches!(evs[1], Event::Press(..)) || first_is_press;
-        if e1_kept { assert!(c.queue[want_q - 1].event == evs[1]); } else { assert!(dq[want_d - 1].event == evs[1]); }
-    }
-    kani::cover!(n == 1 && want_d == 1, "release forwarded");
-    kani::cover!(n == 2 && want_q == 2 && matches!(evs[1], Event::Release(..)), "release kept behind a pending press");
-}
-
-// which remaining-key lists the two chords start with is fixed per harness (a symbolic-length
-// list inside `retain` exhausts CBMC's memory); statuses, events and their number are symbolic
-#[kani::proof]
-#[kani::unwind(5)]
-fn c09_b_drain_releases_full() {
-    drain_case(3, 3); // OnLastRelease, nothing released yet
+    kani::cover!(e == Event::Release(0, 1) && st == Releasable, "chord released");
 }
 #[kani::proof]
-#[kani::unwind(5)]
-fn c09_b_drain_releases_partial() {
-    drain_case(1, 2); // one key of each chord still to be released
+#[kani::unwind(4)]
+fn c09_b_drain_releases() {
+    drain_case(false);
 }
 #[kani::proof]
-#[kani::unwind(5)]
-fn c09_b_drain_releases_first() {
-    drain_case(0, 0); // OnFirstRelease: nothing to wait for
+#[kani::unwind(4)]
+fn c09_b_drain_releases_behind_press() {
+    drain_case(true);
 }
 
 /// must-fail twin: claims a release never changes a chord
@@ -256,3 +206,4 @@ fn c09_b_drain_releases_neg() {
     c.drain_releases(&mut dq);
     assert!(c.active_chords[0].status == st);
 }
+
